@@ -330,4 +330,95 @@ def provision : Policy → Option Policy
   | .cookie c fb => (provision fb).map (.cookie c)
   | p => some p
 
+/-! ### the proxy loop around `Select` (reverseproxy.go, proxyLoopIteration / reverseProxy)
+
+One handler, one list of upstream addresses (static, or handed out afresh by a dynamic upstream
+source for every request: the upstream values are new each time, but `fillHost` ties them to the
+shared per-address `Host` in the global pool, which a request keeps referenced until its loop
+iteration ends). The only state besides the policy is the number of requests in flight per
+address: `countRequest(+1)` after a successful `Select`, `countRequest(-1)` when the round trip is
+over. Requests overlap only through requests that are *held* at the backend. No retries
+(`try_duration` = `retries` = 0): a nil selection is answered with 503. -/
+
+/-- the pool `Select` sees: address `ids[i]` with `loads[i]` requests in flight and the limit `m`
+    (`unhealthy_request_count`, copied to `MaxRequests` by `provisionUpstream`; with it comes the
+    passive policy, `MaxFails` defaulted to 1, no failures recorded) -/
+def mkPool (m : Nat) : List Nat → List Nat → Pool
+  | id :: ids, l :: ls => ⟨id, true, 0, if m = 0 then none else some 1, none, l, m, 0⟩ :: mkPool m ids ls
+  | _, _ => []
+
+def incAt : List Nat → Nat → List Nat
+  | [], _ => []
+  | l :: ls, 0 => (l + 1) :: ls
+  | l :: ls, i + 1 => l :: incAt ls i
+
+def decAt : List Nat → Nat → List Nat
+  | [], _ => []
+  | l :: ls, 0 => (l - 1) :: ls
+  | l :: ls, i + 1 => l :: decAt ls i
+
+/-- a client-side event -/
+inductive Ev where
+  | hold            -- a request arrives and stays in flight at the backend
+  | quick           -- a request arrives and completes
+  | fin (k : Nat)   -- the backend answers the k-th held request
+deriving DecidableEq, Repr
+
+/-- what the client of an event sees -/
+inductive EvOut where
+  | sent (i : Nat)  -- proxied to address number i
+  | refused         -- 503, no upstreams available
+  | crashed         -- Select panicked
+  | starved
+  | done            -- a held request completed
+  | idle            -- that request was not in flight (it had been refused, or completed before)
+deriving DecidableEq, Repr
+
+structure PState where
+  pol : Policy
+  loads : List Nat            -- requests in flight per address
+  held : List (Option Nat)    -- per `hold` event so far: the address it is in flight on
+  draws : List Nat
+deriving DecidableEq, Repr
+
+def outOf : Res → EvOut
+  | .sel i => .sent i
+  | .none => .refused
+  | .starved => .starved
+  | _ => .crashed
+
+def selIdx : Res → Option Nat
+  | .sel i => some i
+  | _ => none
+
+def setNone : List (Option Nat) → Nat → List (Option Nat)
+  | [], _ => []
+  | _ :: hs, 0 => none :: hs
+  | h :: hs, k + 1 => h :: setNone hs k
+
+/-- one event on a handler with limit `m` and addresses `ids` -/
+def pstep (m : Nat) (ids : List Nat) (s : PState) : Ev → EvOut × PState
+  | .quick =>
+    (outOf (select true s.pol (mkPool m ids s.loads) s.draws).res,
+      { s with pol := (select true s.pol (mkPool m ids s.loads) s.draws).pol,
+               draws := (select true s.pol (mkPool m ids s.loads) s.draws).draws })
+  | .hold =>
+    (outOf (select true s.pol (mkPool m ids s.loads) s.draws).res,
+      { pol := (select true s.pol (mkPool m ids s.loads) s.draws).pol,
+        draws := (select true s.pol (mkPool m ids s.loads) s.draws).draws,
+        loads := match selIdx (select true s.pol (mkPool m ids s.loads) s.draws).res with
+          | some i => incAt s.loads i
+          | none => s.loads,
+        held := s.held ++ [selIdx (select true s.pol (mkPool m ids s.loads) s.draws).res] })
+  | .fin k =>
+    match s.held[k]? with
+    | some (some i) => (.done, { s with loads := decAt s.loads i, held := setNone s.held k })
+    | _ => (.idle, s)
+
+def prun (m : Nat) (ids : List Nat) : PState → List Ev → List EvOut × PState
+  | s, [] => ([], s)
+  | s, e :: es => ((pstep m ids s e).1 :: (prun m ids (pstep m ids s e).2 es).1, (prun m ids (pstep m ids s e).2 es).2)
+
+def pinit (p : Policy) (ids : List Nat) (ds : List Nat) : PState := ⟨p, ids.map (fun _ => 0), [], ds⟩
+
 end CaddyModel.C08
